@@ -339,8 +339,10 @@ impl<T> Drop for Vec<T> {
         for (i, bucket) in self.buckets.iter_mut().enumerate() {
             let entries = *bucket.entries.get_mut();
 
+            // a bucket may never have been allocated although a later one was
+            // (indices reserved by an iterator that reported a too large length)
             if entries.is_null() {
-                break;
+                continue;
             }
 
             let len = Location::bucket_len(i as u32);
